@@ -478,6 +478,12 @@ def model_line(case, ran=None):
                    Sym("none") if not has_out_fwd else [Sym("some"), [tree_sx(m) for m in case["out_members"]]],
                    names_sx(o), o["con"], model_nones(case, case["members"]),
                    Sym("absent") if o["bs"] is None else list(o["bs"]), o["propagate"]])
+    if kindname == "sub" and o["checked"]:
+        # a _SubTensorDict always writes through result.set(...), i.e. validated: modelled as checked=False (except for the
+        # device / out= branch, which reads `checked` itself: not modelled there)
+        if case["out"] is not None and o["dev"] != "absent" or case["threads"]:
+            return None
+        o = dict(o, checked=False)
     mode = "mt" if case["threads"] else "st"
     fwd_out = case["out"] if case["front"] != "named_apply" else None      # named_apply accepts out= and drops it
     k = sum(1 for _ in I.walk(case["self"]))
@@ -780,6 +786,8 @@ def check_case(case, mres):
         count("oracle:documented-error")
         if real["outcome"] == "ok":
             fails.append(("error:not-raised", case, {"expected": sorted(errs)}, dict(sig, kind="not-raised", expected=sorted(errs)[0])))
+        elif real["exc"] == "RuntimeError" and REF.NAMES_CONFLICT in gray:
+            count("oracle:gray-names-conflict")
         elif real["exc"] not in errs:
             fails.append(("error:other-class", case, {"expected": sorted(errs), "got": real["exc"], "msg": real.get("msg")},
                           dict(sig, kind="raise", exc=real["exc"])))
@@ -816,6 +824,8 @@ def check_case(case, mres):
         exp = ref[2] if ref[0] == "dense" else ref[1]
         count("oracle:value")
         got = real["ret"]
+        if kindname == "params" and inplace and exp is None and got is not None and case["front"] != "fast":
+            exp = REF.abstract_expected(case["self"])      # the TensorDictParams wrapper returns self whatever the inner call returns
         d = cmp_expected(exp, got, lax_nont=REF.NONT_OUT in gray)
         if d:
             fails.append(("result:" + d[1], case, {"path": d[0], "got": d[2], "want": d[3]}, dict(sig, kind="result", what=d[1])))
@@ -824,6 +834,8 @@ def check_case(case, mres):
             want_is = "none" if exp is None else ("self" if inplace else "out" if has_out else "new")
             if alias_out and exp is not None and not inplace:
                 want_is = "self"
+            if kindname == "params" and inplace and case["front"] == "fast":
+                want_is = real["ret_is"]          # internal: _fast_apply returns the wrapped tensordict
             if ref[0] != "dense" and real["ret_is"] != want_is:
                 fails.append(("result:object", case, {"returned": real["ret_is"], "want": want_is}, dict(sig, kind="object", returned=real["ret_is"])))
             if kindname in ("regular", "alias") and got not in (None, "cyclic") and not alias_out:
@@ -836,8 +848,8 @@ def check_case(case, mres):
                 idd = inplace_identity(real["before"]["self"], got)
                 if idd:
                     fails.append(("inplace:" + idd, case, {}, dict(sig, kind="inplace-identity", what=idd)))
-            want_type = {"regular": "td", "alias": "td", "sub": "sub" if inplace else "td", "tc": "tc", "params": "params" if inplace else "td",
-                         "lazy": "td"}[kindname]
+            want_type = {"regular": "td", "alias": "td", "sub": "sub" if inplace else "td", "tc": "tc",
+                         "params": ("params" if case["front"] != "fast" else None) if inplace else "td", "lazy": "td"}[kindname]
             if has_out and not inplace:
                 want_type = "td" if kindname != "tc" else None
             if got is not None and want_type is not None and real["ret_type"] != want_type:
@@ -860,8 +872,9 @@ def check_case(case, mres):
         elif inplace and has_out and not o["leaf_nont"] and any(e[0] == "T" for _, e in I.walk(case["self"])):
             count("mt-vs-st:gray inplace + out= + non-tensor entries")    # the single-threaded form copies out's non-tensor data into self
         else:
-            a = (mt["outcome"], meta_blind(strip_ident(mt.get("ret"))) if mt.get("ret") != "cyclic" else "cyclic", mt.get("ret_type"))
-            b = (st["outcome"], meta_blind(strip_ident(st.get("ret"))), st.get("ret_type"))
+            tya, tyb = (mt.get("ret_type"), st.get("ret_type")) if kindname != "params" else (None, None)
+            a = (mt["outcome"], meta_blind(strip_ident(mt.get("ret"))) if mt.get("ret") != "cyclic" else "cyclic", tya)
+            b = (st["outcome"], meta_blind(strip_ident(st.get("ret"))), tyb)
             if a != b:
                 dk = mt_diff_kind(mt, st, case)
                 sg = dict(sigbase, call="mt", kind="differs", diff=dk)
@@ -887,6 +900,8 @@ def check_case(case, mres):
             loose = kindname in ("sub", "tc", "params")
             if loose and hard_gray:
                 count("model:not-compared (gray in-place write on a view / wrapper)")
+            elif kindname == "params" and inplace and mo.get("outcome") == "ok" and mo.get("ret") is None and io.get("ret") is not None:
+                count("model:params wrapper returns self for None")
             elif not same_obs(io, mo, loose):
                 mism.append(("apply:result", case, io, mo))
     else:
@@ -987,6 +1002,14 @@ def mt_patterns(case):
     return f
 
 
+def blind_full(t):
+    """full observation with the values of leaves under a meta-device node hidden"""
+    if t is None or isinstance(t, str) or t[0] != "N":
+        return t
+    hide = t[2][1] == "meta"
+    return ["N", t[1], t[2], [[k, (["L", c[1], "values"] if (hide and c[0] == "L") else blind_full(c))] for k, c in t[3]]]
+
+
 def mt_diff_kind(mt, st, case=None):
     if mt["outcome"] != "ok":
         return "mt-raises-" + mt["exc"]
@@ -994,18 +1017,25 @@ def mt_diff_kind(mt, st, case=None):
         return "st-raises-" + st["exc"]
     if mt["ret"] == "cyclic":
         return "mt-cyclic"
-    if st["ret"] is None and mt.get("ret_is") in ("self", "out") and case is not None and case["kind"] != "lazy" and \
-            cmp_expected(REF.abstract_expected(case[mt["ret_is"]]), mt["ret"]) is None:
-        return "extra-empty-nodes"          # nothing was written: self / out is returned where the other form returns None
-    if strip_ident(erase_nested_names(mt["ret"])) == strip_ident(erase_nested_names(st["ret"])):
+    mr, sr = blind_full(mt["ret"]), blind_full(st["ret"])
+    if st["ret"] is None and mt.get("ret_is") in ("self", "out") and case is not None:
+        if case["kind"] != "lazy":
+            same = cmp_expected(REF.abstract_expected(case[mt["ret_is"]]), mt["ret"]) is None
+        else:
+            ms = case["members"] if mt["ret_is"] == "self" else case["out_members"]
+            got = mt.get("ret_members") or []
+            same = len(ms) == len(got) and all(cmp_expected(REF.abstract_expected(m), g) is None for m, g in zip(ms, got))
+        if same:
+            return "extra-empty-nodes"          # nothing was written: self / out is returned where the other form returns None
+    if strip_ident(erase_nested_names(mr)) == strip_ident(erase_nested_names(sr)):
         return "names-only"
 
     def emptied(r):
         x = strip_ident(drop_empty_nodes(r))
         return None if (x is not None and x[0] == "N" and not x[2]) else x
-    if emptied(mt["ret"]) == emptied(st["ret"]):
+    if emptied(mr) == emptied(sr):
         return "extra-empty-nodes"
-    if emptied(erase_nested_names(mt["ret"])) == emptied(erase_nested_names(st["ret"])):
+    if emptied(erase_nested_names(mr)) == emptied(erase_nested_names(sr)):
         return "names+extra-empty-nodes"
     return "other"
 
